@@ -25,6 +25,22 @@ out.append("Fresh sub-agents were given only a property record and a scratch wor
            "`seeded/<ID>_<mN>/`; `tools/seed.py detect` applies it to /repo, runs the registered quick check(s) and undoes it "
            "(`seeded/*/detect.json`).\n")
 out.append(subprocess.run(["python3", os.path.join(ROOT, "tools", "seed_table.py")], stdout=subprocess.PIPE, text=True).stdout)
+out.append("\n### 9.4a Harmless changes (`benign/`, `tools/benign.py`): what the owning check says\n")
+out.append("`quiet` = exit 0; `no-witness` = an obligation broke (named in the replay file), the failing-input search found nothing: "
+           "`VIOLATION ... no-failing-input-found`; `witness` would be a false alarm with a claimed failing input (none).\n")
+out.append("| change | kind | what was changed | result | broken obligations |\n|---|---|---|---|---|")
+for dd in sorted(glob.glob(os.path.join(ROOT, "benign", "C*_b*"))):
+    name = os.path.basename(dd)
+    meta = json.load(open(os.path.join(dd, "meta.json")))
+    dj = os.path.join(dd, "detect.json")
+    res, br = "not run", ""
+    if os.path.exists(dj):
+        v = json.load(open(dj)).get(name.split("_")[0], {})
+        res = "witness (FALSE ALARM)" if v.get("witness") else ("no-witness" if v.get("detected") else "quiet")
+        m = re.search(r"(\d+)/(\d+) obligations", v.get("summary", ""))
+        if m and m.group(1) != m.group(2):
+            br = "%s of %s hold" % (m.group(1), m.group(2))
+    out.append("| %s | %s | %s | %s | %s |" % (name, meta.get("kind", ""), cell(meta.get("what", ""), 260), res, br))
 out.append("\n### 9.4b Axioms each property's theorems depend on (union of `Print Assumptions` over its Props file, from the last evidence)\n")
 out.append("| property | theorems | axioms |\n|---|---|---|")
 for f in sorted(glob.glob(os.path.join(ROOT, "evidence", "C*.json"))):
